@@ -89,6 +89,10 @@ extern "C" void h_session() {
         VP_ASSERT(f.is_open());
         for (int i = 0; i < NOBJ; i++) {
             f.write(objs[i]);
+#ifdef GROW_CONTAINER_DURING_WRITE
+            // documented API, used in the middle of a write session: the container size is changed while the workers run
+            if (i == GROW_CONTAINER_DURING_WRITE) f.setDefaultLogContainerSize(CFG_CONTAINER * 3);
+#endif
 #if defined(SLOW_PRODUCER) || defined(SCALE_THRESHOLDS)
             vp_yield();          // a slow producer (live logging): the workers drain everything and wait in between
 #endif
